@@ -141,7 +141,11 @@ where
                 break;
             }
 
-            let q_rand = pd.space.sample_uniform(&mut *rng).unwrap();
+            // A sampler that fails costs this iteration only; one that keeps failing leaves the
+            // roadmap empty, which solve() reports as UnsampledStateSpace.
+            let Ok(q_rand) = pd.space.sample_uniform(&mut *rng) else {
+                continue;
+            };
             if vc.is_valid(&q_rand) {
                 let mut new_node = Node {
                     state: q_rand.clone(),
